@@ -6,7 +6,7 @@ import ast
 from fractions import Fraction
 from typing import Any, Optional
 
-from .interp import Domain, Interp, Phi, Ref, Tup, Unsupported
+from .interp import Domain, Interp, Phi, Ref, Tup, Unsupported, vtext
 from .nf import NF, func_atom
 from .program import short, unparse
 
@@ -97,7 +97,7 @@ class NFDomain(Domain):
         return NF.atom(("and" if isinstance(op, ast.And) else "or") + "(" + ";".join(parts) + ")")
 
     def where(self, mask, new, old, node):
-        m = mask.canon() if isinstance(mask, NF) else (mask.path if isinstance(mask, Ref) else str(mask))
+        m = vtext(mask)
         if isinstance(new, NF) and isinstance(old, NF) and new == old:
             return new
         return Phi("mask:" + m, new, old, cond=mask)
